@@ -358,6 +358,10 @@ func (ssc *StatefulSetController) adoptOrphanRevisions(set *apps.StatefulSet) er
 		}
 	}
 	if len(orphanRevisions) > 0 {
+		// A StatefulSet that is being deleted adopts nothing.
+		if set.DeletionTimestamp != nil {
+			return nil
+		}
 		for i := range orphanRevisions {
 			if shouldSyncLabels(orphanRevisions[i]) {
 				orphanRevisions[i], err = syncLabels(ssc.kubeClient, set, orphanRevisions[i])
@@ -372,6 +376,9 @@ func (ssc *StatefulSetController) adoptOrphanRevisions(set *apps.StatefulSet) er
 		}
 		if fresh.UID != set.UID {
 			return fmt.Errorf("original StatefulSet %v/%v is gone: got uid %v, wanted %v", set.Namespace, set.Name, fresh.UID, set.UID)
+		}
+		if fresh.DeletionTimestamp != nil {
+			return fmt.Errorf("%v/%v has just been deleted at %v", set.Namespace, set.Name, fresh.DeletionTimestamp)
 		}
 		return ssc.control.AdoptOrphanRevisions(set, orphanRevisions)
 	}
